@@ -24,7 +24,8 @@ from itertools import groupby
 from path import Path
 
 from .enums import FileState, Need, ReturnCode, StepState
-from .exceptions import HashError
+from .exceptions import GraphError, HashError
+from .file import File
 from .hash import FileHash
 from .pending import PendingSummary, analyze_pending
 from .reporter import ReporterClient
@@ -233,6 +234,19 @@ async def _report_missing_targets(workflow: Workflow, reporter: ReporterClient) 
         missing_targets = sorted(
             target for target in workflow.targets if not workflow.is_regular_output(target)
         )
+        # A target that ended up as a static file or a volatile output is invalid, not missing.
+        # `Workflow.reconcile_targets` leaves that verdict to the declaration when a step in
+        # the creator chain is pending, but a declaration that comes back through a full
+        # recycle of a nested plan is never checked, so the verdict is given here.
+        invalid_targets = []
+        for target in missing_targets:
+            file = workflow.find_attached(File, target)
+            if file is not None:
+                try:
+                    workflow._raise_if_forbidden_target(target, file.get_state())
+                except GraphError as exc:
+                    invalid_targets.append((target, str(exc)))
+        missing_targets = [t for t in missing_targets if t not in dict(invalid_targets)]
         # Directory targets that matched zero regular outputs.
         # This check is weaker than the exact-target one above by design (best-effort semantics).
         # See `Workflow.has_regular_output_under`.
@@ -242,6 +256,9 @@ async def _report_missing_targets(workflow: Workflow, reporter: ReporterClient) 
             if not workflow.has_regular_output_under(target_dir)
         )
     returncode = ReturnCode(0)
+    for _, message in invalid_targets:
+        await reporter("ERROR", f"Invalid build target: {message}")
+        returncode |= ReturnCode.FAILED
     if len(missing_targets) > 0:
         await reporter(
             "WARNING",
